@@ -55,7 +55,7 @@ CLAIMED = {
         "and a universal refutation of the protocol as stated (known findings S19, S28). Every failing position of generated DAGs "
         "incl. nested macros is run on the real library with real recovery/checkpoint files.",
    design="13/C08", technique="Coq proofs (induction over nested graphs, invariant 'keyed leaves hold the right outputs') + differential correspondence + oracle",
-   note="Executors not covered (S6 makes executor failures invisible to the parent). Checkpoint resume is refuted for the protocol "
+   note="Executors not covered. Checkpoint resume is refuted for the protocol "
         "the property states; proved under explicit flag clearing."),
  "C09": dict(
    text="Coq theorems over Macro.v (Macro._setup_node step by step: interface nodes, creation script with nested macros, links, "
